@@ -1,21 +1,16 @@
-"""Per-property configuration of the check driver."""
+"""Per-property configuration of the check driver: one JSON file per claimed property in tools/props/."""
+import glob, json, os
 
 ALLOWED_AXIOMS = set()  # the development is expected to be closed under the global context
 
 TRUSTED_BASE_COMMON = [
     "Coq 8.16.1 kernel (coqc; coqchk in the thorough tier); vm_compute used for reflective side conditions; no native_compute",
     "translator harness/cmd/gen: regexp/syntax.Parse+Simplify of re.String() denotes what regexp executes; hook accessors return the package's real tables",
-    "extraction: ExtrOcamlBasic only (bool, option, unit, list, prod, sumbool, sumor inductives; andb/orb inlined); OCaml 4.13.1; hand-written ocaml/driver.ml",
+    "extraction: ExtrOcamlBasic only (bool, option, unit, list, prod, sumbool, sumor inductives; andb/orb inlined); OCaml 4.13.1; hand-written ocaml/*.ml driver",
     "correspondence harness (Go, -tags verif hook files are one-line forwards)",
 ]
 
-PROPS = {
-    "C18": {
-        "proof_files": ["proofs/IdentFacts.v"],
-        "trusted_base": ["model/Ident.v hand-written from identifier.go, tied by correspondence (streams ident_const, ident_prefix, rx)",
-                         "lib/Utf8.v models Go's UTF-8 decoding (validated by the rx stream on malformed input)"],
-        "proved_fragment": "all byte strings (unbounded)",
-        "searched_fragment": "exhaustive small scope + random, see rule",
-        "assumptions": ["Go's regexp matches the denotation of its parsed+simplified syntax tree"],
-    },
-}
+_here = os.path.dirname(os.path.abspath(__file__))
+PROPS = {}
+for _f in sorted(glob.glob(os.path.join(_here, "props", "C*.json"))):
+    PROPS[os.path.basename(_f)[:-5]] = json.load(open(_f))
